@@ -46,7 +46,7 @@ UNIT = {
              ("info .base_members() .iter() .any(|base| self.has_float.contains(&base.ty.into()))", "any_base_in(&self.has_float, info)", 1, "R5"),
              ("info.fields().iter().any(|f| match *f { Field::DataMember(ref data) => { self.has_float.contains(&data.ty().into()) } Field::Bitfields(ref bfu) => bfu .bitfields() .iter() .any(|b| self.has_float.contains(&b.ty().into())), })", "any_field_in(&self.has_float, info)", 1, "R5"),
              ("template .template_arguments() .iter() .any(|arg| self.has_float.contains(&arg.into()))", "any_arg_in(&self.has_float, template)", 1, "R5"),
-             ("(&t.into())", "(&t.item())", 3, "R12"),
+             ("(&t.into())", "(&t.item())", 1, "R12"),
              ("(&template.template_definition().into())", "(&template.template_definition().item())", 1, "R12"),
          ],
          "ensures": [
